@@ -18,6 +18,17 @@ fn holds(src: &str, mode: &str, needle: &str) -> bool {
             Err(p) => format!("{} {}", p.site, p.message).contains(needle),
             _ => false,
         },
+        "gofail" => match crate::runner::guard(|| capi::compile_single(src).map(|c| capi::go_text(&c))) {
+            Ok(Ok(go)) => {
+                let gp = goexec::parse(&go);
+                if !matches!(goexec::vet(&gp), Vet::Accept) {
+                    return false;
+                }
+                let r = goexec::run(&gp, 5_000_000, gomini::Sched::Deterministic);
+                matches!(r.term, goexec::Term::Fail(_)) && r.stderr.contains(needle)
+            }
+            _ => false,
+        },
         "reject" => match crate::runner::guard(|| capi::compile_single(src).map(|c| capi::go_text(&c))) {
             Ok(Err(e)) => capi::err_messages(&e).iter().any(|m| m.contains(needle)),
             _ => false,
